@@ -3,7 +3,7 @@
    The wrappers are the generated ones (Gen/Contracts.v); everything user-level is interpreted here. *)
 From Coq Require Import List ZArith Bool String Ascii.
 Import ListNotations.
-Require Import Base Prog Sig Interp InterpFacts Model Show State ScnSwitch Validators HasPatcher Contracts.
+Require Import Base Prog Sig Interp InterpFacts Model Show State ScnSwitch Validators HasPatcher Contracts Dispatch.
 Open Scope string_scope.
 
 (* ---------- expressions ---------- *)
@@ -179,6 +179,17 @@ Definition fdef_of (f : sfun) : fdef :=
      f_accepts := fun a k => match sf_stack f with [] => is_some (call_bind (sf_sig f) a k) | _ => true end |}.
 Fixpoint ftab_of (fs : list sfun) (n : fid) : option fdef :=
   match fs with [] => None | f :: t => if String.eqb (sf_name f) n then Some (fdef_of f) else ftab_of t n end.
+(* dispatchers: deal.dispatch objects with their registered implementations *)
+Definition contracts_of_tab (fs : list sfun) (n : fid) : option fid :=
+  match find (fun f => String.eqb (sf_name f) n) fs with
+  | Some f => match sf_stack f with [] => None | _ => Some n end
+  | None => None end.
+Definition ftab_with (fs : list sfun) (ds : list (fid * list fid)) (n : fid) : option fdef :=
+  match lookup n ds with
+  | Some impls => Some {| f_kind := KSync; f_wrapper := DispatchCall.run (contracts_of_tab fs) {| d_functions := impls |};
+                          f_body := fun _ _ => Ret VNone; f_accepts := fun _ _ => true |}
+  | None => ftab_of fs n
+  end.
 
 (* ---------- driver ---------- *)
 Inductive action :=
@@ -213,7 +224,7 @@ Fixpoint drive (vars : list (nat * value)) (l : list action) : prog (list (outco
   | a :: t => r <- do_action vars a ;; s <- get (fun w => w) ;; rest <- drive (snd r) t ;; Ret ((fst r, s) :: rest)
   end.
 
-Record scenario := { sc_funs : list sfun; sc_driver : list action }.
+Record scenario := { sc_funs : list sfun; sc_dispatch : list (fid * list fid); sc_driver : list action }.
 Definition FUEL := 60.
 (* the top level behaves like an event loop that resumes a suspended coroutine at once *)
 Fixpoint pump (ftab : fid -> option fdef) (n : nat) {A} (r : res A) : res A :=
@@ -224,7 +235,7 @@ Fixpoint pump (ftab : fid -> option fdef) (n : nat) {A} (r : res A) : res A :=
            | _ => r end
   end.
 Definition run_scenario (sc : scenario) : res (list (outcome * st)) :=
-  pump (ftab_of (sc_funs sc)) 30 (interp (ftab_of (sc_funs sc)) FUEL (drive [] (sc_driver sc)) w_init).
+  let tab := ftab_with (sc_funs sc) (sc_dispatch sc) in pump tab 30 (interp tab FUEL (drive [] (sc_driver sc)) w_init).
 
 (* ---------- observation text ---------- *)
 Definition show_kind (k : effkind) := match k with KOut => "out" | KErr => "err" | KSock => "sock" end.
